@@ -33,6 +33,10 @@ type Result<T, E = SyncerError> = std::result::Result<T, E>;
 const TRY_INIT_BACKOFF_MAX_INTERVAL: Duration = Duration::from_secs(60);
 const SLOW_SYNC_MIN_THRESHOLD: u64 = 50;
 
+#[cfg(eigerco_lumina_verif)]
+#[path = "syncer_sim_verif_hooks.rs"]
+pub mod verif_sim_hooks;
+
 /// Representation of all the errors that can occur in `Syncer` component.
 #[derive(Debug, thiserror::Error)]
 pub enum SyncerError {
